@@ -615,8 +615,8 @@ pub fn run(args: &Args) -> ! {
     ctx.rule("mutants: shipped models and generated models (closed and open plans) with 0-3 structural edits of the JSON tree (delete key / array item, empty / duplicate / truncate array, redirect an id to another, a fresh or the nil id, zero / negate a number, resize a numeric array to 0/1/23/25 values), trees that Model::from_json rejects are counted; histories: 1-25 editor operations from Model::default() with the indicators recomputed after every step. Every computation runs in a worker process (60 s watchdog): panic, hang or process death is a violation; after a panic the same process must still compute a known good model to its baseline; unedited closed models must give only finite numbers and an indicators JSON that loads back to an equal value. Non-trivial: at least one edit applied; history with a window.");
     ctx.assume("finiteness is read from the Debug text of EnergyIndicators (every f32, also inside Option); 'closed' = generated closed plan or shipped model, unedited");
     ctx.replay_regressions(replay_one);
-    ctx.run_prop("mutants", ctx.tier().pick(8_000, 1_000_000), mut_case, check_mutant);
-    ctx.run_prop("histories", ctx.tier().pick(600, 20_000), || proptest::collection::vec(op(), 1..=25), check_history);
+    ctx.run_prop("mutants", ctx.tier().pick(40_000, 1_000_000), mut_case, check_mutant);
+    ctx.run_prop("histories", ctx.tier().pick(2_000, 30_000), || proptest::collection::vec(op(), 1..=25), check_history);
     for c in ["mutants/outcome/ok", "mutants/outcome/rejected", "mutants/sane-model-checked", "histories/outcome/ok"] {
         ctx.require_class(c);
     }
@@ -629,23 +629,11 @@ pub fn run(args: &Args) -> ! {
 /// thorough only: coverage-guided byte-level mutation of model JSON texts (any number of simultaneous edits)
 fn fuzz_campaign(ctx: &Ctx) {
     use crate::fuzz::{self, Campaign};
-    use crate::gen::model::{self, Params};
     ctx.rule("fuzz:model_json (thorough): libFuzzer campaign (16 processes x fixed -runs, -seed from the seed, fresh corpus seeded with generated closed and open models and the smallest shipped model; dictionary = identifiers of a shipped model) over Model::from_json -> energy_indicators -> as_json; a panic, a hang (60 s, confirmed alone at 180 s) or process death is a violation; every 64th computed model the process recomputes cubo.json and must get its baseline. Non-trivial: the text loaded as a model and the indicators were computed.");
     if !fuzz::build(ctx) {
         return;
     }
-    let mut seeds: Vec<(String, Vec<u8>)> = vec![];
-    for (k, open) in [false, true].into_iter().enumerate() {
-        let plans = fuzz::sample_values(&model::plan(Params { open, max_spaces: 2, ..Params::default() }), 12, ctx.seed(), &format!("C14/fuzz-seeds/{}", k));
-        for (i, pl) in plans.iter().enumerate() {
-            if let Ok(j) = model::build(pl).as_json() {
-                seeds.push((format!("generated-{}-{}", if open { "open" } else { "closed" }, i), j.into_bytes()));
-            }
-        }
-    }
-    let cubo = std::fs::read_to_string("/repo/bemodel/tests/data/cubo.json").unwrap_or_default();
-    let dict = fuzz::tokens_of(&[cubo.clone(), seeds.first().map(|s| String::from_utf8_lossy(&s.1).to_string()).unwrap_or_default()], 300);
-    seeds.push(("cubo.json".into(), cubo.into_bytes()));
+    let (seeds, dict) = fuzz::model_json_corpus(ctx.seed(), "C14/fuzz-seeds");
     fuzz::run(
         ctx,
         &Campaign {
